@@ -152,6 +152,9 @@ func (p faultPlan) name() string {
 	if p.after {
 		k = "after"
 	}
+	if p.sameSig {
+		k += "/samesig"
+	}
 	return fmt.Sprintf("v%d/call%d/op%d/%s", p.variant, p.faultCall, p.at, k)
 }
 
